@@ -9,7 +9,7 @@ from .world import FUNCS
 # rough upper bounds of traced library lines per operation kind, used only to
 # place line faults (a fault placed beyond the end simply does not fire and is
 # counted as such)
-LMAX = {"extra": 60, "roundtrip": 1500, "call": 900, "inverse": 700, "backward": 700, "construct": 120, "load": 25,
+LMAX = {"newapi": 60, "extra": 60, "roundtrip": 1500, "call": 900, "inverse": 700, "backward": 700, "construct": 120, "load": 25,
         "func": 150, "restart": 120}
 
 IO_FAMILIES = ("dtf", "dti", "scat", "scat2")
@@ -36,13 +36,13 @@ def _logu(rng, lo, hi):
 BASE_MIX = {
     "C15": {"call": 5, "inverse": 4, "backward": 4, "construct": 2, "convert": 0.5,
             "restart": 0.9, "drop": 0.3, "forget": 0.3, "mutate_output": 0.8, "load": 0.8,
-            "set_default_dtype": 0.4, "func": 1.2, "roundtrip": 1.5},
+            "set_default_dtype": 0.4, "func": 1.2, "roundtrip": 1.5, "newapi": 0.5},
     "C16": {"call": 6, "inverse": 3, "backward": 2.5, "construct": 2, "convert": 4,
             "restart": 1.5, "drop": 0.2, "forget": 0.1, "mutate_output": 0.2, "load": 0.0,
-            "set_default_dtype": 2.0, "func": 0.0, "roundtrip": 1.0},
+            "set_default_dtype": 2.0, "func": 0.0, "roundtrip": 1.0, "newapi": 0.5},
     "C18": {"call": 0.6, "inverse": 0.0, "backward": 0.0, "construct": 3, "convert": 0.0,
             "restart": 0.3, "drop": 0.3, "forget": 0.0, "mutate_output": 0.0, "load": 9,
-            "set_default_dtype": 0.2, "func": 0.0, "roundtrip": 0.0, "extra": 0.8},
+            "set_default_dtype": 0.2, "func": 0.0, "roundtrip": 0.0, "extra": 0.8, "newapi": 0.5},
 }
 
 
@@ -341,8 +341,9 @@ def gen_plan(profile, seed, tier="quick"):
             elif k == "convert":
                 cs = rng.randrange(len(slots))
                 how = _pick(rng, ["double", "float", "to64", "to32", "double", "float",
-                                  "double_overwrite", "float_overwrite", "reload_assign"])
-                if how != "reload_assign":
+                                  "double_overwrite", "float_overwrite", "reload_assign",
+                                  "eval", "train"])
+                if how not in ("reload_assign", "eval", "train"):
                     slot_dtype[cs] = "float64" if how.startswith(("double", "to64")) else "float32"
                 prog.append({"op": "convert", "id": new_id(), "slot": cs, "how": how})
             elif k == "restart":
@@ -396,6 +397,9 @@ def gen_plan(profile, seed, tier="quick"):
                     lop["form"] = _pick(rng, ["npstr", "strsub", "upper", "padded", "suffixed",
                                               "userpath", "userpath_npz", "userpathlib"])
                 prog.append(lop)
+            elif k == "newapi":
+                prog.append({"op": "newapi", "id": new_id(), "index": rng.randrange(8),
+                             "flip": rng.randrange(16)})
             elif k == "extra":
                 prog.append({"op": "extra", "id": new_id(), "index": rng.randrange(8),
                              "name": _pick(rng, tables.ALL_NAMES), "flip": rng.randrange(8)})
@@ -438,7 +442,7 @@ def gen_func(rng, oid, knobs):
     op = {"op": "func", "id": oid, "fn": fn, "wave": _pick(rng, catalog.WAVES_SIMPLE + ["db4"]),
           "mode": mode, "prep": rng.random() < 0.5,
           "grad_mode": _pick(rng, ["ambient", "ambient", "no_grad"]),
-          "requires_grad": rng.random() < 0.3}
+          "requires_grad": rng.random() < 0.3, "alias_args": rng.random() < 0.1}
     if fn in ("afb2d", "afb2d_nonsep", "afb1d"):
         op["args"] = [spec([N, C, H, W])]
     elif fn == "afb2d_atrous":
